@@ -5,7 +5,7 @@
     frozen statement skeletons; the endpoint-side selects have an arm that is
     eventually ready. *)
 From Coq Require Import List NArith Bool String.
-From Verif Require Import Sni.SchedSkel Sni.Shutdown Sni.ShutdownCfg Gen.TransportSkel.
+From Verif Require Import Sni.SchedSkel Sni.Shutdown Sni.ShutdownEndpoint Sni.ShutdownCfg Gen.TransportSkel.
 Import ListNotations.
 Local Open Scope string_scope.
 
@@ -330,4 +330,24 @@ Definition frozen_clientDial : list string :=
       "0 return box.receive(ctx, c.tr.serveDone)" ].
 
 Lemma gen_clientDial_frozen : skel_is gen_transport_skel "endpointClient.Dial" frozen_clientDial = true.
+Proof. vm_compute. reflexivity. Qed.
+
+(** ** The endpoint side *)
+
+Lemma gen_ecfg_guarded : eguarded gen_ecfg = true.
+Proof. vm_compute. reflexivity. Qed.
+
+Lemma gen_ecfg_arms :
+  accept_arms gen_ecfg = [ARecv "p.incoming"; ARecv "p.serveDone"; ARecv "p.closed"] /\
+  close_arms gen_ecfg = [ARecv "timer.C"; ARecv "p.serveDone"] /\
+  send_arms gen_ecfg = [ARecv "timer.C"; ASend "p.incoming"; ARecv "p.closed"].
+Proof. vm_compute. repeat split. Qed.
+
+Definition frozen_newEndpoint : list string :=
+  [ "0 assign ep := &Endpoint{ conn: conn, addr: d.address(), server: newEndpointServer(conn, d, opt), serveDone: make(chan struct{}), incoming: make(chan net.Conn, 10), closed: make(chan struct{}), }";
+      "0 call ep.server.setAccept(ep.sendAccept)";
+      "0 go ep.serve()";
+      "0 return ep" ].
+
+Lemma gen_newEndpoint_frozen : skel_is gen_transport_skel "newEndpoint" frozen_newEndpoint = true.
 Proof. vm_compute. reflexivity. Qed.
